@@ -1,18 +1,10 @@
 package checks
 
 import (
-	"errors"
 	"fmt"
-	"io"
-	"sort"
-	"strings"
-	"time"
 
-	"github.com/go-git/go-git/v6/config"
 	"github.com/go-git/go-git/v6/plumbing"
 	"github.com/go-git/go-git/v6/plumbing/cache"
-	"github.com/go-git/go-git/v6/plumbing/format/index"
-	"github.com/go-git/go-git/v6/plumbing/format/reflog"
 	"github.com/go-git/go-git/v6/storage"
 	"github.com/go-git/go-git/v6/storage/filesystem"
 	"github.com/go-git/go-git/v6/storage/memory"
@@ -24,48 +16,10 @@ import (
 )
 
 func init() {
-	fw.Register(&fw.Check{ID: "C19", Level: "model_checking", Run: runC19, QuickBudget: 90, ThoroughBudget: 1200})
+	fw.Register(&fw.Check{ID: "C19", Level: "model_checking", Run: runC19, QuickBudget: 600, ThoroughBudget: 1200})
 }
 
-// abstract repository state used as model for C19 (and C17)
-type absRepo struct {
-	refs    map[string]string
-	objs    map[string]bool // content names
-	index   string          // marker: name of the single index entry
-	shallow string
-	user    string
-	reflog  map[string][]string // messages
-}
-
-func (a *absRepo) clone() *absRepo {
-	b := &absRepo{refs: map[string]string{}, objs: map[string]bool{}, index: a.index, shallow: a.shallow, user: a.user, reflog: map[string][]string{}}
-	for k, v := range a.refs {
-		b.refs[k] = v
-	}
-	for k, v := range a.objs {
-		b.objs[k] = v
-	}
-	for k, v := range a.reflog {
-		b.reflog[k] = append([]string{}, v...)
-	}
-	return b
-}
-
-var absHashes = map[string]plumbing.Hash{
-	"h1": plumbing.NewHash("1111111111111111111111111111111111111111"),
-	"h2": plumbing.NewHash("2222222222222222222222222222222222222222"),
-	"h3": plumbing.NewHash("3333333333333333333333333333333333333333"),
-}
-
-func absHashName(h plumbing.Hash) string {
-	for k, v := range absHashes {
-		if v == h {
-			return k
-		}
-	}
-	return h.String()
-}
-
+// blobOf builds a blob with the storer's own object constructor (also used by C39).
 func blobOf(st storage.Storer, content string) plumbing.EncodedObject {
 	o := st.NewEncodedObject()
 	o.SetType(plumbing.BlobObject)
@@ -75,318 +29,10 @@ func blobOf(st storage.Storer, content string) plumbing.EncodedObject {
 	return o
 }
 
-var absObjHash = map[string]plumbing.Hash{}
-
-func init() {
-	ms := memory.NewStorage()
-	for _, n := range []string{"o1", "o2", "o3"} {
-		h, _ := ms.SetEncodedObject(blobOf(ms, "object "+n+"\n"))
-		absObjHash[n] = h
-	}
-}
-
-// observeRepo reads everything observable from a storer into a canonical string.
-func observeRepo(st storage.Storer, tag string) string {
-	var out []string
-	ek := func(err error) string {
-		switch {
-		case err == nil:
-			return "ok"
-		case errors.Is(err, plumbing.ErrReferenceNotFound):
-			return "ref-not-found"
-		case errors.Is(err, plumbing.ErrObjectNotFound):
-			return "object-not-found"
-		}
-		return "error(" + normErr(err) + ")"
-	}
-	for _, n := range []string{"refs/heads/a", "refs/heads/b", "refs/heads/c", "HEAD"} {
-		r, err := st.Reference(plumbing.ReferenceName(n))
-		if err != nil {
-			out = append(out, "ref "+n+" "+ek(err))
-		} else if r.Type() == plumbing.SymbolicReference {
-			out = append(out, "ref "+n+" ->"+r.Target().String())
-		} else {
-			out = append(out, "ref "+n+" "+absHashName(r.Hash()))
-		}
-	}
-	if it, err := st.IterReferences(); err != nil {
-		out = append(out, "iterrefs "+ek(err))
-	} else {
-		var ls []string
-		it.ForEach(func(r *plumbing.Reference) error {
-			v := absHashName(r.Hash())
-			if r.Type() == plumbing.SymbolicReference {
-				v = "->" + r.Target().String()
-			}
-			ls = append(ls, r.Name().String()+"="+v)
-			return nil
-		})
-		sort.Strings(ls)
-		out = append(out, "iterrefs "+strings.Join(ls, ","))
-	}
-	for _, n := range []string{"o1", "o2", "o3"} {
-		h := absObjHash[n]
-		herr := st.HasEncodedObject(h)
-		_, serr := st.EncodedObjectSize(h)
-		o, gerr := st.EncodedObject(plumbing.BlobObject, h)
-		content := ""
-		if gerr == nil {
-			r, err := o.Reader()
-			if err == nil {
-				b, _ := io.ReadAll(r)
-				r.Close()
-				content = strings.TrimSpace(string(b))
-			}
-		}
-		_, terr := st.EncodedObject(plumbing.TreeObject, h)
-		out = append(out, fmt.Sprintf("obj %s has=%s size=%s get=%s[%s] wrongtype=%s", n, ek(herr), ek(serr), ek(gerr), content, ek(terr)))
-	}
-	if it, err := st.IterEncodedObjects(plumbing.BlobObject); err != nil {
-		out = append(out, "iterobjs "+ek(err))
-	} else {
-		var ls []string
-		it.ForEach(func(o plumbing.EncodedObject) error {
-			for n, h := range absObjHash {
-				if h == o.Hash() {
-					ls = append(ls, n)
-				}
-			}
-			return nil
-		})
-		sort.Strings(ls)
-		out = append(out, "iterobjs "+strings.Join(ls, ","))
-	}
-	if idx, err := st.Index(); err != nil {
-		out = append(out, "index "+ek(err))
-	} else {
-		var ls []string
-		for _, e := range idx.Entries {
-			ls = append(ls, e.Name)
-		}
-		out = append(out, "index "+strings.Join(ls, ","))
-	}
-	if sh, err := st.Shallow(); err != nil {
-		out = append(out, "shallow "+ek(err))
-	} else {
-		var ls []string
-		for _, h := range sh {
-			ls = append(ls, absHashName(h))
-		}
-		out = append(out, "shallow "+strings.Join(ls, ","))
-	}
-	if cfg, err := st.Config(); err != nil {
-		out = append(out, "config "+ek(err))
-	} else {
-		out = append(out, "config user="+cfg.User.Name)
-	}
-	if rl, ok := st.(interface {
-		Reflog(plumbing.ReferenceName) ([]*reflog.Entry, error)
-	}); ok {
-		for _, n := range []string{"refs/heads/a"} {
-			es, err := rl.Reflog(plumbing.ReferenceName(n))
-			if err != nil {
-				out = append(out, "reflog "+n+" "+ek(err))
-			} else {
-				var ls []string
-				for _, e := range es {
-					ls = append(ls, e.Message)
-				}
-				out = append(out, "reflog "+n+" "+strings.Join(ls, ","))
-			}
-		}
-	}
-	return tag + ":\n" + strings.Join(out, "\n")
-}
-
-// expectRepo renders the model in the same format.
-func expectRepo(a *absRepo, tag string, withReflog bool) string {
-	var out []string
-	for _, n := range []string{"refs/heads/a", "refs/heads/b", "refs/heads/c", "HEAD"} {
-		if v, ok := a.refs[n]; ok {
-			out = append(out, "ref "+n+" "+v)
-		} else {
-			out = append(out, "ref "+n+" ref-not-found")
-		}
-	}
-	var ls []string
-	for k, v := range a.refs {
-		ls = append(ls, k+"="+v)
-	}
-	sort.Strings(ls)
-	out = append(out, "iterrefs "+strings.Join(ls, ","))
-	var os []string
-	for _, n := range []string{"o1", "o2", "o3"} {
-		if a.objs[n] {
-			out = append(out, fmt.Sprintf("obj %s has=ok size=ok get=ok[object %s] wrongtype=object-not-found", n, n))
-			os = append(os, n)
-		} else {
-			out = append(out, fmt.Sprintf("obj %s has=object-not-found size=object-not-found get=object-not-found[] wrongtype=object-not-found", n))
-		}
-	}
-	out = append(out, "iterobjs "+strings.Join(os, ","))
-	out = append(out, "index "+a.index)
-	out = append(out, "shallow "+a.shallow)
-	out = append(out, "config user="+a.user)
-	if withReflog {
-		out = append(out, "reflog refs/heads/a "+strings.Join(a.reflog["refs/heads/a"], ","))
-	}
-	return tag + ":\n" + strings.Join(out, "\n")
-}
-
-func mkIndex(entry string) *index.Index {
-	idx := &index.Index{Version: 2}
-	if entry != "" {
-		e, _ := idx.Add(entry)
-		e.Hash = absObjHash["o1"]
-	}
-	return idx
-}
-
-func mkReflogEntry(msg string) *reflog.Entry {
-	return &reflog.Entry{OldHash: absHashes["h1"], NewHash: absHashes["h2"], Committer: reflog.Signature{Name: "n", Email: "e@x", When: time.Unix(1700000000, 0).UTC()}, Message: msg}
-}
-
-// preloadRepo puts the common initial content into a storer and returns its model.
-func preloadRepo(st storage.Storer) *absRepo {
-	a := &absRepo{refs: map[string]string{}, objs: map[string]bool{}, reflog: map[string][]string{}}
-	must := func(err error) {
-		if err != nil {
-			fw.Abort("preload: %v", err)
-		}
-	}
-	must(st.SetReference(plumbing.NewHashReference("refs/heads/a", absHashes["h1"])))
-	must(st.SetReference(plumbing.NewHashReference("refs/heads/b", absHashes["h1"])))
-	must(st.SetReference(plumbing.NewSymbolicReference("HEAD", "refs/heads/a")))
-	a.refs["refs/heads/a"], a.refs["refs/heads/b"], a.refs["HEAD"] = "h1", "h1", "->refs/heads/a"
-	_, err := st.SetEncodedObject(blobOf(st, "object o1\n"))
-	must(err)
-	a.objs["o1"] = true
-	must(st.SetIndex(mkIndex("f1")))
-	a.index = "f1"
-	cfg, err := st.Config()
-	must(err)
-	cfg.User.Name = "base"
-	must(st.SetConfig(cfg))
-	a.user = "base"
-	if rl, ok := st.(interface {
-		AppendReflog(plumbing.ReferenceName, *reflog.Entry) error
-	}); ok {
-		must(rl.AppendReflog("refs/heads/a", mkReflogEntry("r0")))
-		a.reflog["refs/heads/a"] = []string{"r0"}
-	}
-	return a
-}
-
-type repoOp struct {
-	name string
-	// do applies to the real storer and the model; returns (expected, got); expected "*" = open
-	do func(st storage.Storer, m *absRepo) (string, string)
-}
-
-func repoOps() []repoOp {
-	okres := func(err error) string {
-		if err == nil {
-			return "ok"
-		}
-		if errors.Is(err, storage.ErrReferenceHasChanged) {
-			return "changed"
-		}
-		if errors.Is(err, plumbing.ErrReferenceNotFound) {
-			return "ref-not-found"
-		}
-		return "error(" + normErr(err) + ")"
-	}
-	setRef := func(n, v string) repoOp {
-		return repoOp{fmt.Sprintf("SetRef(%s,%s)", n, v), func(st storage.Storer, m *absRepo) (string, string) {
-			err := st.SetReference(plumbing.NewHashReference(plumbing.ReferenceName(n), absHashes[v]))
-			m.refs[n] = v
-			return "ok", okres(err)
-		}}
-	}
-	cas := func(n, v, old string) repoOp {
-		return repoOp{fmt.Sprintf("CAS(%s,new=%s,old=%s)", n, v, old), func(st storage.Storer, m *absRepo) (string, string) {
-			err := st.CheckAndSetReference(plumbing.NewHashReference(plumbing.ReferenceName(n), absHashes[v]), plumbing.NewHashReference(plumbing.ReferenceName(n), absHashes[old]))
-			if m.refs[n] == old {
-				m.refs[n] = v
-				return "ok", okres(err)
-			}
-			// must fail and not update; the error kind is left open
-			if err == nil {
-				return "fail", "ok"
-			}
-			return "fail", "fail"
-		}}
-	}
-	rm := func(n string) repoOp {
-		return repoOp{fmt.Sprintf("RemoveRef(%s)", n), func(st storage.Storer, m *absRepo) (string, string) {
-			err := st.RemoveReference(plumbing.ReferenceName(n))
-			delete(m.refs, n)
-			return "ok", okres(err)
-		}}
-	}
-	setSym := func(n, target string) repoOp {
-		return repoOp{fmt.Sprintf("SetSymRef(%s->%s)", n, target), func(st storage.Storer, m *absRepo) (string, string) {
-			err := st.SetReference(plumbing.NewSymbolicReference(plumbing.ReferenceName(n), plumbing.ReferenceName(target)))
-			m.refs[n] = "->" + target
-			return "ok", okres(err)
-		}}
-	}
-	return []repoOp{
-		setSym("HEAD", "refs/heads/b"), setSym("HEAD", "refs/heads/c"),
-		setRef("refs/heads/a", "h2"), setRef("refs/heads/c", "h3"),
-		cas("refs/heads/a", "h3", "h1"), cas("refs/heads/a", "h3", "h2"), cas("refs/heads/c", "h2", "h3"),
-		rm("refs/heads/a"), rm("refs/heads/b"), rm("refs/heads/c"),
-		{"SetObject(o2)", func(st storage.Storer, m *absRepo) (string, string) {
-			_, err := st.SetEncodedObject(blobOf(st, "object o2\n"))
-			m.objs["o2"] = true
-			return "ok", okres(err)
-		}},
-		{"SetIndex(f2)", func(st storage.Storer, m *absRepo) (string, string) {
-			err := st.SetIndex(mkIndex("f2"))
-			m.index = "f2"
-			return "ok", okres(err)
-		}},
-		{"SetShallow(h1)", func(st storage.Storer, m *absRepo) (string, string) {
-			err := st.SetShallow([]plumbing.Hash{absHashes["h1"]})
-			m.shallow = "h1"
-			return "ok", okres(err)
-		}},
-		{"SetConfig(user=txn)", func(st storage.Storer, m *absRepo) (string, string) {
-			// a fresh value: mutating the object Config() hands out would also mutate a
-			// memory base through aliasing, which is a trait of that backend, not of the transaction
-			cfg := config.NewConfig()
-			cfg.User.Name = "txn"
-			err := st.SetConfig(cfg)
-			m.user = "txn"
-			return "ok", okres(err)
-		}},
-		{"AppendReflog(a,r1)", func(st storage.Storer, m *absRepo) (string, string) {
-			rl, ok := st.(interface {
-				AppendReflog(plumbing.ReferenceName, *reflog.Entry) error
-			})
-			if !ok {
-				return "ok", "ok"
-			}
-			err := rl.AppendReflog("refs/heads/a", mkReflogEntry("r1"))
-			m.reflog["refs/heads/a"] = append(m.reflog["refs/heads/a"], "r1")
-			return "ok", okres(err)
-		}},
-		{"DeleteReflog(a)", func(st storage.Storer, m *absRepo) (string, string) {
-			rl, ok := st.(interface {
-				DeleteReflog(plumbing.ReferenceName) error
-			})
-			if !ok {
-				return "ok", "ok"
-			}
-			err := rl.DeleteReflog("refs/heads/a")
-			delete(m.reflog, "refs/heads/a")
-			return "ok", okres(err)
-		}},
-	}
-}
-
 type c19Sys struct {
+	u       *absUni
 	base    storage.Storer
+	reopen  func() storage.Storer // fresh instance over the base's persistent state (filesystem bases)
 	baseIni *absRepo
 	view    *absRepo
 	tx      transactional.Storage
@@ -397,7 +43,7 @@ type c19Sys struct {
 func (s *c19Sys) Apply(k int) (string, string) { return s.ops[k].do(s.tx, s.view) }
 func (s *c19Sys) Observe() (string, string) {
 	e := expectRepo(s.view, "view before commit", s.hasRL) + "\n" + expectRepo(s.baseIni, "base before commit", s.hasRL)
-	g := observeRepo(s.tx, "view before commit") + "\n" + observeRepo(s.base, "base before commit")
+	g := observeRepo(s.u, s.tx, "view before commit") + "\n" + observeRepo(s.u, s.base, "base before commit")
 	if e != g {
 		return e, g
 	}
@@ -407,7 +53,11 @@ func (s *c19Sys) Observe() (string, string) {
 	if err != nil {
 		cr = "error(" + normErr(err) + ")"
 	}
-	g += "\ncommit: " + cr + "\n" + observeRepo(s.base, "base after commit")
+	g += "\ncommit: " + cr + "\n" + observeRepo(s.u, s.base, "base after commit")
+	if s.reopen != nil && e == g {
+		e += "\n" + expectRepo(s.view, "base reopened after commit", s.hasRL)
+		g += "\n" + observeRepo(s.u, s.reopen(), "base reopened after commit")
+	}
 	return e, g
 }
 func (s *c19Sys) Key() string {
@@ -416,84 +66,85 @@ func (s *c19Sys) Key() string {
 func (s *c19Sys) Close() {}
 
 func runC19(c *fw.Ctx) {
-	depth := c.Pick(3, 4)
+	depth := absDevDepth(c, c.Pick(3, 4))
 	c.Bound("depth", depth)
-	ops := repoOps()
+	u := absUniverse("sha1")
+	ops := repoOps(u, "view before commit")
 	var names []string
 	for _, o := range ops {
 		names = append(names, o.name)
 	}
 	c.Bound("ops", names)
-	c.SetRule("all histories up to depth over {SetRef, CheckAndSet (cur/stale), RemoveRef, SetObject, SetIndex, SetShallow, SetConfig, AppendReflog, DeleteReflog} through transactional.NewStorage(base, memory) with base in {memory, filesystem on mcfs} preloaded with refs a,b,HEAD, object o1, an index, config, a reflog; after every history: every read/listing through the transaction equals base(+)pending (model), the base read directly is unchanged, then Commit and the base equals the view; every history is replayed on fresh instances (no merging); distinct = distinct model views")
-	c.Assume("error kind of a failed CheckAndSet left open; iteration order compared as a set")
+	c.SetRule("all histories up to depth over the shared menu {ReadAll (a full mid-history read compared with the model, so that later writes meet warm caches and lists), SetRef/SetSymRef (retarget, detach HEAD, hash->symbolic, nested name), CheckAndSet (current/stale/absent/old=nil/symbolic old), RemoveRef, SetObject (new, already loose in base, already packed in base, commit), WritePack (blobs+tag), SetIndex (entry/empty), SetShallow (value/empty), SetConfig, AppendReflog (two names), DeleteReflog} through transactional.NewStorage(base, temporal) with base and temporal each in {memory, filesystem on mcfs}; the base is preloaded with hash/symbolic refs (filesystem base: a packed only, b packed and loose), loose objects (one empty), a pack (blob+tree), an index, a shallow list, a config and a reflog; after every history: every read/listing through the transaction (refs point+listing, objects has/size/untyped/typed/wrong-typed/repeated read + listing per type with multiplicity, abbreviated-id expansion, index entries, shallow, config, reflogs) equals base(+)pending (model), the base read directly is unchanged, then Commit and the base equals the view (filesystem bases also through a freshly opened instance); every history is replayed on fresh instances (no merging); distinct = distinct model views")
+	c.Assume("sha1 object format; error kind of a failed CheckAndSet left open; CheckAndSet with a symbolic old value against a symbolic reference with another target left open; iteration order compared as a multiset; CountLooseRefs/PackRefs/Module/AddAlternate of the transaction not compared")
+	type pairing struct {
+		base, temporal string
+		depth          int
+	}
+	// the pairings with a filesystem temporal storage run one level shallower
+	pairs := []pairing{{"memory", "memory", depth}, {"filesystem", "memory", depth}, {"filesystem", "filesystem", depth - 1}, {"memory", "filesystem", depth - 1}}
+	if c.Thorough() {
+		pairs = []pairing{{"memory", "memory", depth}, {"filesystem", "memory", depth}, {"filesystem", "filesystem", depth - 1}, {"memory", "filesystem", depth - 1}}
+	}
+	var pb []string
+	for _, p := range pairs {
+		pb = append(pb, fmt.Sprintf("base=%s,temporal=%s,depth=%d", p.base, p.temporal, p.depth))
+	}
+	c.Bound("pairings", pb)
+	// the filesystem base holds a only in packed-refs and b both packed and loose
+	fsBase := mcfs.NewWorld()
+	{
+		st := filesystem.NewStorage(fsBase.View("/g", "g"), cache.NewObjectLRUDefault())
+		preloadRepo(u, st)
+		c.Must(st.PackRefs(), "C19: packing the base's references")
+		c.Must(st.SetReference(plumbing.NewHashReference(absRefB, u.h["h1"])), "C19: loose copy of b")
+	}
 	total := histx.Result{}
-	for _, kind := range []string{"memory", "filesystem"} {
-		kind := kind
-		var fsBase *mcfs.World
-		if kind == "filesystem" {
-			fsBase = mcfs.NewWorld()
-			preloadRepo(filesystem.NewStorage(fsBase.View("/g", "g"), cache.NewObjectLRUDefault()))
-		}
-		sp := histx.Spec{Name: "C19/base=" + kind, OpNames: names, Depth: depth, NoDedup: true,
+	for _, p := range pairs {
+		p := p
+		sp := histx.Spec{Name: fmt.Sprintf("C19/base=%s,temporal=%s", p.base, p.temporal), OpNames: names, Depth: p.depth, NoDedup: true,
 			New: func() histx.Sys {
-				var base storage.Storer
-				var ini *absRepo
-				if kind == "memory" {
+				s := &c19Sys{u: u, ops: ops}
+				if p.base == "memory" {
 					ms := memory.NewStorage()
-					ini = preloadRepo(ms)
-					base = ms
+					s.baseIni = preloadRepo(u, ms)
+					s.base = ms
 				} else {
 					w := fsBase.Clone()
-					base = filesystem.NewStorage(w.View("/g", "g"), cache.NewObjectLRUDefault())
-					ini = preloadRepo(memory.NewStorage()) // same content: only the model is needed
+					s.base = filesystem.NewStorage(w.View("/g", "g"), cache.NewObjectLRUDefault())
+					s.baseIni = preloadRepo(u, memory.NewStorage()) // same content: only the model is needed
+					s.reopen = func() storage.Storer {
+						return filesystem.NewStorage(w.View("/g", "g2"), cache.NewObjectLRUDefault())
+					}
 				}
-				_, hasRL := base.(interface {
-					Reflog(plumbing.ReferenceName) ([]*reflog.Entry, error)
-				})
-				if !hasRL {
-					ini.reflog = map[string][]string{}
+				var temporal storage.Storer = memory.NewStorage()
+				if p.temporal == "filesystem" {
+					temporal = filesystem.NewStorage(mcfs.NewWorld().View("/t", "t"), cache.NewObjectLRUDefault())
 				}
-				return &c19Sys{base: base, baseIni: ini, view: ini.clone(), tx: transactional.NewStorage(base, memory.NewStorage()), ops: ops, hasRL: hasRL}
+				s.view = s.baseIni.clone()
+				s.tx = transactional.NewStorage(s.base, temporal)
+				// every base and temporal kind used here stores reflogs, so the
+				// transaction must as well: the expectation always has them
+				s.hasRL = true
+				return s
 			},
 			Classify: func(hist []string, where, e, g string) string {
-				return "base=" + kind + " | " + diffLines(e, g)
+				t := ""
+				if p.temporal != "memory" {
+					t = ",temporal=" + p.temporal
+				}
+				return "base=" + p.base + t + " | " + absDiff(e, g)
 			},
 		}
 		res := histx.Run(c, sp)
 		total.States += res.States
 		total.Transitions += res.Transitions
 		if !res.Complete {
-			c.Incomplete(fmt.Sprintf("base=%s: depth %d only", kind, res.MaxDepth))
+			c.Incomplete(fmt.Sprintf("base=%s,temporal=%s: depth %d only", p.base, p.temporal, res.MaxDepth))
 		}
-		c.Sample(map[string]any{"base": kind, "histories": res.Histories, "example_history": []string{names[0], names[5], names[2]}})
+		c.Sample(map[string]any{"base": p.base, "temporal": p.temporal, "histories": res.Histories, "example_history": []string{names[1], names[7], names[15]}})
 	}
 	c.States(total.States)
 	c.Transitions(total.Transitions)
 	c.TracesValidated(0)
-}
-
-// diffLines gives a stable, value-level description of the first differing lines.
-func diffLines(e, g string) string {
-	el, gl := strings.Split(e, "\n"), strings.Split(g, "\n")
-	section := ""
-	var out []string
-	for i := 0; i < len(el) || i < len(gl); i++ {
-		var a, b string
-		if i < len(el) {
-			a = el[i]
-		}
-		if i < len(gl) {
-			b = gl[i]
-		}
-		if strings.HasSuffix(a, ":") {
-			section = strings.TrimSuffix(a, ":")
-		}
-		if a != b {
-			out = append(out, fmt.Sprintf("[%s] want %q got %q", section, a, b))
-			if len(out) >= 2 {
-				break
-			}
-		}
-	}
-	return strings.Join(out, "; ")
 }
